@@ -393,7 +393,7 @@ def step (s : State) (ev : Event) : State × Obs :=
           else
             let s1 := { s with timers := s.timers.filter (fun t => t.1 != id), awake := s.awake - 1 }
             match doClose s1 c with
-            | (s2, .ok) => if s2.scheduled.isEmpty then (s2, .ok) else enterLoop s2
+            | (s2, .ok) => if s2.scheduled.length > s1.scheduled.length then enterLoop s2 else (s2, .ok)
             | r => r
       | _ => (s, .invalid)
 
